@@ -1764,6 +1764,7 @@ func (c *RemoteClient) removeRequest(request *request, timeout time.Duration) er
 
 func (c *RemoteClient) runRequests(ctx context.Context, interrupt <-chan interface{}) error {
 	for {
+		verifhook.At(ctx, "client.requests.iteration")
 		select {
 		case <-interrupt:
 			return nil
